@@ -678,6 +678,22 @@ theorem strict_histories_are_loose (len : Int) (ops : List Op) (r : Rec) (hrun :
     runLoose len ops = .ok r :=
   runLoose_of_run hrun
 
+/-! ### 8d  `bisect` run literally (no longer taken by contract) -/
+
+/-- Python's binary search (`bisect_right` / `bisect_left`, the `while lo < hi` loop of Lib/bisect.py transcribed
+    literally as `Bisect.bisect`) returns the partition point of any list partitioned by its test -/
+theorem bisect_literal_is_partition_point {α : Type} (keep : α → Bool) (a : List α)
+    (h : ∀ y ∈ a.dropWhile keep, keep y = false) : Bisect.bisect keep a = (a.takeWhile keep).length :=
+  Bisect.bisect_eq keep a _ 0 (Bisect.partitioned_takeWhile keep a h) (Nat.zero_le _)
+
+/-- on the record's (sorted) gene list the literal `bisect_right` of `add_cds_feature` is the insertion point the
+    model inserts at, and the literal `bisect_left` of the lookup (on the features from `linear_start` on) is the
+    start index the lookup model uses — with `genes_stay_sorted` this holds after every history -/
+theorem bisect_on_gene_list (fs : List Gene) (hs : Sorted fs) (g : Gene) (q : Loc) :
+    Bisect.bisect (fun f : Gene => !locLt g.loc f.loc) fs = (fs.takeWhile fun f => !locLt g.loc f.loc).length ∧
+    Bisect.bisect (fun f : Gene => locLt f.loc q) fs = (fs.takeWhile fun f => locLt f.loc q).length :=
+  ⟨bisect_right_insertion hs g, bisect_left_lookup hs q⟩
+
 /-! ### 9  build-order independence (histories of adding calls) -/
 
 /-- any two orderings of the same adding calls (genes before areas, after them, or interleaved in any way)
@@ -786,5 +802,9 @@ example : ((run 1000 [.cds (g 0 910 920), .area (.mk 200 .sub (.simple ⟨900, 1
       .setCores 0 ["x"]]).toOption.map (fun r => (r.children 200, r.section 200 .post, r.genes.map (·.cores))))
     = (true, some ([0], [0], [["x"]])) := by
   decide +kernel
+
+/-- the literal binary search on a sorted layout with equal keys: insertion after the equal ones -/
+example : Bisect.bisect (fun f : Gene => !locLt (g 9 6 10).loc f.loc) [g 0 0 5, g 1 6 10, g 2 6 10, g 3 6 23, g 4 8 19] = 3 := by
+  decide
 
 end ASV.C08
